@@ -117,6 +117,58 @@ def bounded(check, tier):
     s.done()
 
 
+def str_lookalikes(text):
+    """str operands that are not exactly `str`: a plain subclass, a subclass whose __str__ / __repr__ / __format__ are not its characters,
+    and a str-mixin Enum member - each IS the string `text` (len, indexing, ''.join), whatever str() makes of it"""
+    import enum
+
+    class SubStr(str):
+        pass
+
+    class LoudStr(str):
+        def __str__(self):
+            return "<<" + "".join(self) + ">>"
+        __repr__ = __str__
+
+        def __format__(self, spec):
+            return "{{" + "".join(self) + "}}"
+    out = [("str subclass", SubStr(text)), ("str subclass with its own __str__", LoudStr(text))]
+    if text.isidentifier() or text:
+        try:
+            E = enum.Enum("Colour", {"MEMBER": text}, type=str)
+            out.append(("str-mixin Enum member", E.MEMBER))
+        except Exception:      # noqa: BLE001
+            pass
+    return out
+
+
+def str_operand_types(check, tier):
+    """"a str operand is text": the characters of the operand, whatever class of str it is"""
+    s = Suite(check, "C06.str_operand_types", "+, reflected + and join with str operands that are instances of str SUBCLASSES (plain, with an own "
+              "__str__/__repr__/__format__, a str-mixin Enum member): the same characters, lengths and slices as with the equal plain str",
+              bound="4 texts x 3 operand classes x 5 layouts")
+    small = [mk(l) for l in ((), (1,), (2,), (1, 1), (0, 2))]
+    for text in ("red", "x", "a b", ""):
+        for kind, op in str_lookalikes(text):
+            for f in small:
+                forms = {"f + s": (lambda: f + op, lambda: f + text), "s + f": (lambda: op + f, lambda: text + f),
+                         "f.join([s, f, s])": (lambda: f.join([op, f, op]), lambda: f.join([text, f, text])),
+                         "f.join([s])": (lambda: f.join([op]), lambda: f.join([text]))}
+                for name, (mkgot, mkwant) in forms.items():
+                    s.case((text, kind, describe(f), name), sample=dict(text=text, operand=kind, f=describe(f), form=name))
+                    want = mkwant()
+                    try:
+                        got = mkgot()
+                        ok = cells(got) == cells(want) and got.s == want.s and len(got) == len(want) and \
+                            all(cells(got[i]) == cells(want[i]) for i in range(len(want))) and cells(got[1:]) == cells(want[1:])
+                        d = "" if ok else f"gives text {got.s!r} (len {len(got)}), with the equal plain str: {want.s!r} (len {len(want)})"
+                    except Exception as e:      # noqa: BLE001
+                        d = f"raised {type(e).__name__}: {e}"
+                    if d:
+                        s.fail("C06.str_operand", dict(text=text, operand=kind, f=describe(f), form=name), d)
+    s.done()
+
+
 def plain_lemma_selftest(check):
     """PLAIN(' '*k + y) == PLAIN(y) == PLAIN(y + ' '*k): exhaustive small scope (the only string-theory lemma the engine assumes)"""
     bad = 0
@@ -173,4 +225,5 @@ def run(check, tier, seed):
     for c in CONTRACTS:
         verify(c, tier, check)
     bounded(check, tier)
+    str_operand_types(check, tier)
     derived(check, tier, seed)
